@@ -18,22 +18,24 @@ Theorem C09_check_iff_wt : forall T D,
   forall G items, check_file T G D items = TOk <-> wt_file G items.
 Proof. exact check_iff_wt_tables. Qed.
 
-(* (1') for the tables of the current source tree: on every program inside the guard.  The guard
-       [file_guard] is a boolean function of the program: every statement kind it uses has the
-       specified row in Visitor::visit_stmt / visit_item, it mentions no enum const of a non-int enum
-       unless compute_ty handles those, and it calls no signature with a defaulted parameter before
-       a non-defaulted one unless the arguments are zipped with the non-defaulted parameters only.
-       When all tables are as specified the guard is true of every program (1''). *)
+(* (1') for the tables read from the current source tree: unguarded, because every side condition
+       is true of them (C09_side_conditions, by vm_compute) *)
 Theorem C09_check_iff_wt_gen : forall G items,
-  file_guard gen_optypes G gen_tctable items = true ->
-  (check_file gen_optypes G gen_tctable items = TOk <-> wt_file G items).
+  check_file gen_optypes G gen_tctable items = TOk <-> wt_file G items.
 Proof. exact check_iff_wt_gen. Qed.
 
-Theorem C09_check_iff_wt_gen_unguarded :
-  dispatch_complete gen_tctable = true ->
-  ot_ct_enum gen_optypes = CT_enum_ty -> ot_call_zip gen_optypes = CZ_nondefault ->
-  forall G items, check_file gen_optypes G gen_tctable items = TOk <-> wt_file G items.
-Proof. exact check_iff_wt_gen_unguarded. Qed.
+Theorem C09_side_conditions :
+  optypes_ok gen_optypes = true /\ dispatch_complete gen_tctable = true /\
+  ot_ct_enum gen_optypes = CT_enum_ty /\ ot_call_zip gen_optypes = CZ_nondefault.
+Proof. exact (conj gen_optypes_ok (conj gen_dispatch_complete (conj gen_ct_enum_ok gen_call_zip_ok))). Qed.
+
+(* (1g) for arbitrary tables with the documented operator typing: on every program inside the
+       decidable guard [file_guard] (every statement kind it uses has the specified row in
+       Visitor::visit_stmt / visit_item, ...).  This is what remains true when a row is broken. *)
+Theorem C09_check_iff_wt_guarded : forall T D,
+  optypes_ok T = true ->
+  forall G items, file_guard T G D items = true -> (check_file T G D items = TOk <-> wt_file G items).
+Proof. exact check_iff_wt_guarded. Qed.
 
 (* the operator typing tables of the source are the documented ones (vm_compute) *)
 Theorem C09_operator_tables_as_documented : optypes_ok gen_optypes = true.
@@ -46,33 +48,22 @@ Theorem C09_reference_typer : forall G items,
   check_file spec_optypes G spec_tctable items = TOk <-> wt_file G items.
 Proof. exact reference_typer_decides_wt. Qed.
 
-(* (1-) the refutations: each holds vacuously once the corresponding row is repaired *)
-Theorem C09_check_iff_wt_refuted_free_block :
-  tc_stmt gen_tctable K_Block = D_Skip ->
-  exists G items, check_file gen_optypes G gen_tctable items = TOk /\ ~ wt_file G items.
-Proof. exact free_block_refuted. Qed.
-Theorem C09_check_iff_wt_refuted_interrupt_label :
-  tc_stmt gen_tctable K_InterruptLabel = D_Skip ->
-  exists G items, check_file gen_optypes G gen_tctable items = TOk /\ ~ wt_file G items.
-Proof. exact interrupt_label_refuted. Qed.
-Theorem C09_check_iff_wt_refuted_rel_time_label :
-  tc_stmt gen_tctable K_RelTimeLabel = D_Skip ->
-  exists G items, check_file gen_optypes G gen_tctable items = TOk /\ ~ wt_file G items.
-Proof. exact rel_time_label_refuted. Qed.
-Theorem C09_check_iff_wt_refuted_const_item :
-  tc_item gen_tctable IK_ConstVar = I_Walk ->
-  exists G items, check_file gen_optypes G gen_tctable items = TOk /\ ~ wt_file G items.
-Proof. exact const_item_refuted. Qed.
-Theorem C09_check_iff_wt_refuted_call_padding :
-  ot_call_zip gen_optypes = CZ_all ->
-  exists G good bad,
-    (wt_file G good /\ check_file gen_optypes G gen_tctable good <> TOk) /\
-    (check_file gen_optypes G gen_tctable bad = TOk /\ ~ wt_file G bad).
-Proof. exact call_padding_refuted. Qed.
+(* (1r) the programs that exhibited the defects repaired by the `fix:` commits 2f23e04 (free
+       blocks), daf145f (label operands), e620e4b (const items), af0e0ca (padding parameters),
+       8ea8263 (compute_ty of enum consts) are now judged as the typing rules say *)
+Theorem C09_former_counterexamples :
+  check_file gen_optypes G0 gen_tctable w_block = TErr /\
+  check_file gen_optypes G0 gen_tctable w_interrupt = TErr /\
+  check_file gen_optypes G0 gen_tctable w_reltime = TErr /\
+  check_file gen_optypes G0 gen_tctable w_const = TErr /\
+  check_file gen_optypes G0 gen_tctable w_pad_bad = TErr /\
+  check_file gen_optypes G0 gen_tctable w_pad_good = TOk /\
+  compute_ty gen_optypes G0 w_enum = check_expr gen_optypes G0 w_enum.
+Proof. exact former_witnesses. Qed.
 
 (* (2) compute_ty agrees with check_expr on every accepted expression (the code only
-       debug_asserts this): any tables, inside the expression guard; unguarded when compute_ty
-       handles enum consts by their enum's type *)
+       debug_asserts this): for any tables inside the expression guard; unguarded when compute_ty
+       handles enum consts by their enum's type; and for the tables of the current tree *)
 Theorem C09_compute_ty_agrees : forall T G e t,
   eguard T G e = true -> check_expr T G e = Ok t -> compute_ty T G e = Ok t.
 Proof. exact compute_ty_agrees. Qed.
@@ -80,10 +71,9 @@ Theorem C09_compute_ty_agrees_unguarded : forall T,
   optypes_ok T = true -> ot_ct_enum T = CT_enum_ty -> ot_call_zip T = CZ_nondefault ->
   forall G e t, check_expr T G e = Ok t -> compute_ty T G e = Ok t.
 Proof. exact compute_ty_agrees_tables. Qed.
-Theorem C09_compute_ty_agrees_refuted :
-  ot_ct_enum gen_optypes = CT_enum_int ->
-  exists G e t, check_expr gen_optypes G e = Ok t /\ compute_ty gen_optypes G e <> Ok t.
-Proof. exact compute_ty_enum_refuted. Qed.
+Theorem C09_compute_ty_agrees_gen : forall G e t,
+  check_expr gen_optypes G e = Ok t -> compute_ty gen_optypes G e = Ok t.
+Proof. exact compute_ty_agrees_gen. Qed.
 
 (* (3) static type = dynamic type: a well-typed expression that AstVm evaluates (with the operator
        table read from const_simplify.rs, any libm) yields a value of the predicted type *)
@@ -95,16 +85,15 @@ Proof. exact static_is_dynamic_gen. Qed.
 
 (* ... and for the checker of the current tree: accepted => evaluates to the type compute_ty predicts *)
 Theorem C09_accepted_static_is_dynamic : forall G libm regs locals cs diff e t v,
-  env_ok G regs locals cs -> enums_ok G cs e -> eguard gen_optypes G e = true ->
+  env_ok G regs locals cs -> enums_ok G cs e ->
   check_expr gen_optypes G e = Ok (Value t) ->
   eval gen_optable libm regs locals cs diff (to_expr e) = Ok v ->
   type_of_value v = t /\ compute_ty gen_optypes G e = Ok (Value t).
 Proof. exact static_is_dynamic_gen'. Qed.
 
 (* non-vacuity *)
-Example C09_guard_satisfiable : file_guard gen_optypes G0 gen_tctable prog_ok = true /\ wt_file G0 prog_ok
-  /\ check_file gen_optypes G0 gen_tctable prog_ok = TOk.
-Proof. exact (conj prog_ok_guard (conj prog_ok_wt prog_ok_checks)). Qed.
+Example C09_nontrivial_instance : wt_file G0 prog_ok /\ check_file gen_optypes G0 gen_tctable prog_ok = TOk.
+Proof. exact (conj prog_ok_wt prog_ok_checks). Qed.
 Example C09_static_is_dynamic_instance :
   has_type G0 e_dyn (Value TFloat) /\
   eval gen_optable (fun _ _ => 0) (fun _ => VFloat ONE_HALF) (fun _ => VFloat ONE_HALF) (fun _ => None) 0
